@@ -318,8 +318,54 @@ const xorDisconnected = "genomestart 1\n" +
 	"gene 1 1 5 0.5 false 1 0.5 true\ngene 2 3 5 -1.5 false 2 -1.5 true\ngene 1 5 4 2.0 false 3 2.0 true\ngene 2 3 6 1.0 false 4 1.0 false\ngene 1 5 6 1.0 false 5 1.0 true\n" +
 	"genomeend 1\n"
 
+// genes without traits (one of them disabled), nil-trait nodes
+const nilTraitGenes = "genomestart 1\n" +
+	"trait 1 0.1 0 0 0 0 0 0 0\ntrait 2 0.2 0 0 0 0 0 0 0\n" +
+	"node 1 0 1 1 NullActivation\nnode 2 1 1 1 NullActivation\nnode 3 0 1 3 NullActivation\nnode 4 2 0 2 SigmoidSteepenedActivation\nnode 5 0 0 0 TanhActivation\n" +
+	"gene 0 1 5 0.7 false 1 0.7 true\ngene 0 2 5 -0.3 false 2 -0.3 false\ngene 1 5 4 1.1 false 3 1.1 true\ngene 0 3 4 0.2 false 4 0.2 true\ngene 2 1 4 0.9 false 5 0.9 true\n" +
+	"genomeend 1\n"
+
+// two genes on one ordered node pair that differ only in the recurrence flag, a self loop, a back link
+const parallelRecurrent = "genomestart 1\n" +
+	"trait 1 0.1 0 0 0 0 0 0 0\n" +
+	"node 1 1 1 1 NullActivation\nnode 2 1 1 3 NullActivation\nnode 3 1 0 2 SigmoidSteepenedActivation\nnode 4 1 0 0 SigmoidSteepenedActivation\n" +
+	"gene 1 1 4 0.5 false 1 0.5 true\ngene 1 4 3 1.5 false 2 1.5 true\ngene 1 2 3 0.3 false 3 0.3 true\ngene 1 4 3 -0.8 true 4 -0.8 true\n" +
+	"gene 1 4 4 0.25 true 5 0.25 true\ngene 1 3 4 0.6 true 6 0.6 true\n" +
+	"genomeend 1\n"
+
+// 19 genes of which a single one is enabled and does not leave the bias node
+func bigMostlyIneligible() string {
+	s := "genomestart 1\ntrait 1 0.1 0 0 0 0 0 0 0\n" +
+		"node 1 1 1 1 NullActivation\nnode 2 1 1 3 NullActivation\nnode 3 1 0 2 SigmoidSteepenedActivation\n"
+	for h := 4; h <= 9; h++ {
+		s += fmt.Sprintf("node %d 1 0 0 SigmoidSteepenedActivation\n", h)
+	}
+	innov := 1
+	for t := 3; t <= 9; t++ { // bias -> every neuron, enabled
+		s += fmt.Sprintf("gene 1 2 %d 0.%d false %d 0.%d true\n", t, t, innov, t)
+		innov++
+	}
+	for t := 3; t <= 9; t++ { // input -> every neuron, all disabled but one
+		s += fmt.Sprintf("gene 1 1 %d 0.5 false %d 0.5 %v\n", t, innov, t == 6)
+		innov++
+	}
+	for h := 4; h <= 8; h++ { // hidden -> output, disabled
+		s += fmt.Sprintf("gene 1 %d 3 1.25 false %d 1.25 false\n", h, innov)
+		innov++
+	}
+	return s + "genomeend 1\n"
+}
+
+// sensor 1 has only a disabled outgoing gene and no gene to hidden node 5
+const sensorOnlyDisabled = "genomestart 1\n" +
+	"trait 1 0.1 0 0 0 0 0 0 0\ntrait 2 0.2 0 0 0 0 0 0 0\n" +
+	"node 1 1 1 1 NullActivation\nnode 2 1 1 1 NullActivation\nnode 3 2 1 3 NullActivation\nnode 4 1 0 2 SigmoidSteepenedActivation\nnode 5 2 0 0 SigmoidSteepenedActivation\n" +
+	"gene 1 1 4 0.5 false 1 0.5 false\ngene 2 2 5 -1.5 false 2 -1.5 true\ngene 1 5 4 2.0 false 3 2.0 true\ngene 2 3 4 1.0 false 4 1.0 true\n" +
+	"genomeend 1\n"
+
 func startGenomes() []*genetics.Genome {
-	return []*genetics.Genome{readPlain(xorStart, 1), readPlain(xorDisconnected, 1), readPlain(tinyGenome, 1)}
+	return []*genetics.Genome{readPlain(xorStart, 1), readPlain(xorDisconnected, 1), readPlain(tinyGenome, 1),
+		readPlain(nilTraitGenes, 1), readPlain(parallelRecurrent, 1), readPlain(bigMostlyIneligible(), 1), readPlain(sensorOnlyDisabled, 1)}
 }
 
 func startEnv(g *genetics.Genome) *venv {
